@@ -13,7 +13,10 @@
  *
  * Model-independent oracle: a shadow byte array per element ("what a growable byte array would hold") with a state
  * per byte (unspecified / written / gap that must read 0), a shadow position per access id and a shadow length.
- * Distinct key= per failure kind, see known_findings.json.
+ * Distinct key= per failure kind, see known_findings.json. Gaps carry their origin: a gap left by growing a contiguous
+ * element in place (zero-filled by Hwrite since 998a325: key elem-gap-nonzero:inplace-growth must never fire again) versus a
+ * gap inside a linked-block element (F20, remaining paths: key elem-gap-nonzero:stale-space-reused). Htrunc on a linked-block
+ * element is refused since 1e2fd75 (key elem-trunc-linked: the operation is missing, state must stay unchanged).
  */
 #include "hdf.h"
 #include "hfile_priv.h"
@@ -26,7 +29,12 @@
 #define SLACK 9000
 #define PRINTCAP 32768 /* Hread results: at most this many bytes of the (0x5a pre-filled) buffer are printed */
 
-enum { ST_UNDEF = 0, ST_DATA = 1, ST_GAP = 2 };
+/* ST_GAP: gap left by growing a contiguous element in place (Hwrite zero-fills it since 998a325);
+   ST_GAPL: gap inside a linked-block element (a hole, or the never-written part of a newly allocated block) */
+enum { ST_UNDEF = 0, ST_DATA = 1, ST_GAP = 2, ST_GAPL = 3 };
+#define GAPBIT(st) ((st) == ST_GAP ? 2 : (st) == ST_GAPL ? 4 : 1)
+#define KEY_GAP_INPLACE "elem-gap-nonzero:inplace-growth"      /* repaired by 998a325: must not come back */
+#define KEY_GAP_REUSE   "elem-gap-nonzero:stale-space-reused"  /* F20, remaining paths: space beyond the recomputed f_end_off handed out again */
 
 /* ---- stdio interposition (link with --wrap): regression oracle for F22 (repaired in /repo by bd3eddc).
    HPgetdiskblock (write-through mode) used to store `uint8 temp;` - an uninitialised stack byte - at the end of every
@@ -211,7 +219,7 @@ static int pick_nb(void) { return hk_chance(12) ? 16 : (int)hk_range(1, 5); }
 static void sh_write(Elem *e, long p, const uint8_t *b, long n)
 {
     long len = e->len < 0 ? 0 : e->len;
-    for (long i = len; i < p; i++) { e->s->d[i] = 0; e->s->st[i] = ST_GAP; }
+    for (long i = len; i < p; i++) { e->s->d[i] = 0; e->s->st[i] = e->linked ? ST_GAPL : ST_GAP; }
     for (long i = 0; i < n; i++) { e->s->d[p + i] = b[i]; e->s->st[p + i] = ST_DATA; }
     if (p + n > len) len = p + n;
     e->len = len;
@@ -353,12 +361,13 @@ static void do_open(void)
                     for (long i = 0; i < n && i < PRINTCAP; i++) {
                         int st = i < e->len ? e->s->st[i] : ST_UNDEF;
                         printf("%02x", rbuf[i]);
-                        if (st != ST_UNDEF && rbuf[i] != e->s->d[i]) bad |= st == ST_GAP ? 2 : 1;
+                        if (st != ST_UNDEF && rbuf[i] != e->s->d[i]) bad |= GAPBIT(st);
                     }
                     printf("\n");
                     if (n != e->len) hk_fail(key_of(e, "elem-read-count"), "Hgetelement=%d shadow length %ld", (int)n, e->len);
                     if (bad & 1) hk_fail(key_of(e, "elem-read-data"), "Hgetelement returns bytes that were not the last written");
-                    if (bad & 2) hk_fail(key_of(e, "elem-gap-nonzero"), "a gap skipped by seeking reads non-zero");
+                    if (bad & 2) hk_fail(key_of(e, KEY_GAP_INPLACE), "a gap left by growing a contiguous element in place reads non-zero");
+                    if (bad & 4) hk_fail(key_of(e, KEY_GAP_REUSE), "a gap inside a linked-block element reads non-zero");
                 }
             }
             break;
@@ -476,7 +485,7 @@ static void t_read(Hnd *h, long n, const char *forced_key)
             printf("%02x", rbuf[i]);
             if (i >= want) continue;
             if (h->dangling) { if (st == ST_UNDEF || rbuf[i] != e->s->d[p + i]) bad |= 1; }
-            else if (st != ST_UNDEF && rbuf[i] != e->s->d[p + i]) bad |= st == ST_GAP ? 2 : 1;
+            else if (st != ST_UNDEF && rbuf[i] != e->s->d[p + i]) bad |= GAPBIT(st);
         }
         printf("\n");
         /* did the call store bytes beyond what was asked for? */
@@ -491,7 +500,8 @@ static void t_read(Hnd *h, long n, const char *forced_key)
         }
         else if (over) { hk_fail(key_of(e, "elem-read-buffer-overrun"), "Hread(%ld) stored bytes beyond the requested count", n); failed = 1; }
         if (bad & 1) { hk_fail(forced_key ? forced_key : key_of(e, "elem-read-data"), "Hread(%ld) at %ld returns bytes that were not the last written", n, p); failed = 1; }
-        if (bad & 2) { hk_fail(key_of(e, "elem-gap-nonzero"), "a gap skipped by seeking reads non-zero (read at %ld)", p); failed = 1; }
+        if (bad & 2) { hk_fail(key_of(e, KEY_GAP_INPLACE), "a gap left by growing a contiguous element in place reads non-zero (read at %ld)", p); failed = 1; }
+        if (bad & 4) { hk_fail(key_of(e, KEY_GAP_REUSE), "a gap inside a linked-block element reads non-zero (read at %ld)", p); failed = 1; }
         h->pos = p + (want > 0 ? want : 0);
     }
     check_posn(h, e, failed || h->dangling);
@@ -559,16 +569,13 @@ static void t_trunc(Hnd *h)
     printf("T elem trunc %d %ld => ", h->id, n);
     if (rc == FAIL) printf("fail\n"); else printf("%d\n", (int)rc);
     int expect = h->wr && n < e->len;
-    if (rc == FAIL) {
-        if (expect) hk_fail(key_of(e, e->linked ? "elem-trunc-linked" : "elem-trunc-fail"), "Htrunc(%ld) fails (length %ld)", n, e->len);
-        return;
-    }
     int32 len = -1;
     Hinquire(h->aid, NULL, NULL, NULL, &len, NULL, NULL, NULL, NULL);
-    if (e->linked) {
-        /* Htrunc acts on the DD of the 16-byte description record: the element keeps its length, the record is cut */
-        hk_fail(key_of(e, "elem-trunc-linked"), "Htrunc(%ld) on a linked-block element returns %d, the length stays %d (shadow %ld)", n, (int)rc, (int)len, e->len);
-        stop_case = 1; /* what follows is undefined */
+    if (rc == FAIL) {
+        /* F18 since 1e2fd75: truncation of a linked-block element is refused (before: the description record was cut) */
+        if (expect) hk_fail(key_of(e, e->linked ? "elem-trunc-linked" : "elem-trunc-fail"), "Htrunc(%ld) fails (length %ld)", n, e->len);
+        if (len != e->len) hk_fail(key_of(e, "elem-trunc-fail-changed"), "a failed Htrunc(%ld) changed the length from %ld to %d", n, e->len, (int)len);
+        check_posn(h, e, 0);
         return;
     }
     if (len != n) hk_fail(key_of(e, "elem-trunc-noeffect"), "Htrunc(%ld) returns %d but the length stays %d", n, (int)rc, (int)len);
@@ -711,6 +718,32 @@ static void scenario_failed_read_then_write(void)
     Hclose(fid);
 }
 
+/* regression for 998a325 (F20, in-place growth path): the bytes cut off by Htrunc of the last element lie beyond the
+   f_end_off recomputed at Hopen; growing the element in place over them must leave zeros in the gap */
+static void scenario_stale_gap_inplace(long cut, long gap)
+{
+    uint8_t w[64], b[160];
+    memset(w, 0xAA, sizeof w);
+    int32 fid = Hopen(hk_tmp("y.hdf"), DFACC_CREATE, 16), aid;
+    if (fid == FAIL) return;
+    Hputelement(fid, 201, 1, w, 64);
+    aid = Hstartaccess(fid, 201, 1, DFACC_RDWR);
+    Htrunc(aid, (int32)cut); Hendaccess(aid); Hclose(fid);
+    fid = Hopen(hk_tmp("y.hdf"), DFACC_RDWR, 0);
+    if (fid == FAIL) return;
+    aid = Hstartaccess(fid, 201, 1, DFACC_RDWR | DFACC_APPENDABLE);
+    if (aid != FAIL && Hseek(aid, (int32)(cut + gap), DF_START) != FAIL && Hwrite(aid, 2, "XY") == 2) {
+        memset(b, 0x5a, sizeof b);
+        Hseek(aid, 0, DF_START);
+        int32 n = Hread(aid, 0, b);
+        int bad = n != cut + gap + 2;
+        for (long i = cut; !bad && i < cut + gap; i++) bad = b[i] != 0;
+        if (bad) hk_fail(KEY_GAP_INPLACE, "Htrunc(64 -> %ld), reopen, Hseek %ld, Hwrite 2: Hread returns %d, gap byte %02x", cut, cut + gap, (int)n, b[cut]);
+    }
+    if (aid != FAIL) Hendaccess(aid);
+    Hclose(fid);
+}
+
 static void run_case(int k)
 {
     memset(F, 0, sizeof F); memset(H, 0, sizeof H);
@@ -770,6 +803,7 @@ static void run_case(int k)
         }
     for (int i = 0; i < MAXF; i++) if (F[i].present) unlink(F[i].path);
     if (k % 16 == 5) scenario_failed_read_then_write();
+    if (k % 16 == 11) scenario_stale_gap_inplace(hk_range(0, 40), hk_range(1, 20));
     if (uninit_seen) { hk_fail("elem-uninit-byte-written", "HPgetdiskblock stored %ld uninitialised non-zero byte(s) in the file (write-through mode)", uninit_seen); uninit_seen = 0; }
     hk_stat("ops", opcount);
 }
